@@ -77,7 +77,7 @@ Print Assumptions C15_onion_all_outcomes.
    handlers (none for a panic: it unwinds through them) and the service IO handlers, as error
    bytes through the client IO handlers, as an error again through the client invoke handlers *)
 Theorem C15_errors_travel_back : forall pool, guard pool -> pool_plain pool -> forall ops r,
-  ctx_mark r = None ->
+  ctx_mark r = None -> fault_mark r = None ->
   let s := snd (run pool ops sys_init) in
   let lst := fun L => spec_list L (snd (spec_run pool ops ssys_init)) in
   (meth_mark r = Some 8001%N ->
@@ -97,6 +97,31 @@ Theorem C15_errors_travel_back : forall pool, guard pool -> pool_plain pool -> f
 Proof. exact trace_fails. Qed.
 Print Assumptions C15_errors_travel_back.
 
+(* (guarded) the innermost client layer fails: the transport answers one of the library's sentinel
+   errors (ErrClosed 9101, ErrTimeout 9102, context errors 9001/9002 with the call's context live,
+   InvalidResponseError 9103, a plain error 55) or panics.  After any history every client invoke
+   and IO handler is entered EXACTLY ONCE, in order, and what the transport answered travels back
+   UNCHANGED through every one of them to the caller: no built-in layer (Client.Call,
+   Client.Request, Client.Transport) retries the request or swallows the error *)
+Theorem C15_no_builtin_retry_or_swallow : forall pool, guard pool -> pool_plain pool -> forall ops r f,
+  fault_mark r = Some f ->
+  let s := snd (run pool ops sys_init) in
+  let lst := fun L => spec_list L (snd (spec_run pool ops ssys_init)) in
+  call pool r s =
+  (s, enters LCI (lst LCI) r ++ (enters LCO (lst LCO) r ++ [] ++ exits_if LCO (lst LCO) (fault_res f))
+      ++ exits_if LCI (lst LCI) (fault_res f), fault_res f).
+Proof. exact trace_fault. Qed.
+Print Assumptions C15_no_builtin_retry_or_swallow.
+
+(* what the built-in handlers do to a result on its way back is the identity on errors (and on
+   panics and ok results) wherever error and value keep their form: Client.Call, Service.Process,
+   Service.Execute; only Service.Handle changes the FORM of an error (bytes for the wire) *)
+Theorem C15_builtin_layers_pass_errors : forall e,
+  back LCI (RErr e) = RErr e /\ back LSO (RErr e) = RErr e /\ back LSI (RErr e) = RErr e /\
+  back LCI RPanic = RPanic /\ (forall L t, back L (ROk t) = ROk t).
+Proof. exact back_errors. Qed.
+Print Assumptions C15_builtin_layers_pass_errors.
+
 (* (guarded) the chain is looked up at each call: a call leaves nothing behind in the managers
    (no per-context copy of a chain exists in the model), so the state -- and with it what every
    later call runs -- is the same whether or not earlier calls were made, with whatever context *)
@@ -111,7 +136,7 @@ Print Assumptions C15_chain_looked_up_per_call.
    through all of them (so a handler could still short-circuit or repair such a call:
    C15_short_circuit_trace and C15_trace_onion_layer hold whatever the context) *)
 Theorem C15_done_context_onion : forall pool, guard pool -> pool_plain pool -> forall ops r m,
-  ctx_mark r = Some m ->
+  fault_mark r = None -> ctx_mark r = Some m ->
   let s := snd (run pool ops sys_init) in
   let t := snd (spec_run pool ops ssys_init) in
   call pool r s =
@@ -395,7 +420,20 @@ Example failing_history :
             EExit LSO 2 (RErr 3); EExit LCO 2 (RWire 3); EExit LCI 1 (RErr 3)] (RErr 3)].
 Proof. vm_compute. reflexivity. Qed.
 
-Example plain_req_nonvacuous : plain_req [5%N; 7%N] /\ meth_mark [8001%N; 5%N] = Some 8001%N /\
+Example transport_fault_history :
+  fst (run [VInvokeFn (hB 10 1 BPass []); VIOFn (hB 20 2 BPass []); VIOFn (hB 21 3 BShortClosed [])]
+           [OM (MUse NClient [0; 1]%nat); OCall [7001%N; 5%N]; OCall [8001%N; 7007%N];
+            OM (MUse NClient [2]%nat); OCall [5%N]] sys_init) =
+  [OutStatus SOk;
+   OutCall [EEnter LCI 1 [7001%N; 5%N]; EEnter LCO 2 [7001%N; 5%N];
+            EExit LCO 2 (RErr 9101); EExit LCI 1 (RErr 9101)] (RErr 9101);
+   OutCall [EEnter LCI 1 [8001%N; 7007%N]; EEnter LCO 2 [8001%N; 7007%N]] RPanic;
+   OutStatus SOk;
+   OutCall [EEnter LCI 1 [5%N]; EEnter LCO 2 [5%N]; EEnter LCO 3 [5%N]; EExit LCO 3 (RErr 9101);
+            EExit LCO 2 (RErr 9101); EExit LCI 1 (RErr 9101)] (RErr 9101)].
+Proof. vm_compute. reflexivity. Qed.
+
+Example plain_req_nonvacuous : plain_req [5%N; 7%N] /\ fault_mark [9001%N; 8001%N; 7003%N; 4%N] = Some 7003%N /\ meth_mark [8001%N; 5%N] = Some 8001%N /\
   ctx_mark [9002%N; 8002%N] = Some 9002%N /\ meth_mark [9002%N; 8002%N] = Some 8002%N.
 Proof. repeat split. Qed.
 
